@@ -676,7 +676,7 @@ static void run_forked(case_fn fn, void* ctx, int cpu_limit_s, int wall_limit_s,
     } else if (WIFEXITED(status) && WEXITSTATUS(status) != 0) {
         fault = 1;
         int ec = WEXITSTATUS(status);
-        if (ec == 23) strcpy(kind, "leak"); else if (ec == 98) strcpy(kind, "ubsan"); else snprintf(kind, sizeof(kind), "exit-%d", ec);
+        if (ec == 23) strcpy(kind, "leak"); else if (ec == 98) strcpy(kind, "ubsan-mem"); else snprintf(kind, sizeof(kind), "exit-%d", ec);
     }
     if (fault) {
         /* scan the child's stderr for the sanitizer's headline and the first frame inside carquet */
@@ -690,7 +690,15 @@ static void run_forked(case_fn fn, void* ctx, int cpu_limit_s, int wall_limit_s,
                 snprintf(kind, sizeof(kind), "asan-%.*s", (int)n, p); have_kind = 1;
                 if (strstr(line, "requested allocation size") || !strncmp(p, "allocation-size-too-big", 23)) { /* keep */ }
             } else if (!have_kind && (p = strstr(line, "runtime error: "))) {
-                strcpy(kind, "ubsan"); have_kind = 1;
+                /* arithmetic UB (shift exponent, signed overflow, float cast) is not a bounds violation
+                 * and is tracked separately; everything else (null / misaligned / out-of-bounds access,
+                 * invalid bool or enum load, pointer overflow, nonnull argument) counts as a fault */
+                if (strstr(p, "shift exponent") || strstr(p, "signed integer overflow") || strstr(p, "left shift of") ||
+                    strstr(p, "outside the range of representable values") || strstr(p, "negation of"))
+                    strcpy(kind, "ubsan-arith");
+                else
+                    strcpy(kind, "ubsan-mem");
+                have_kind = 1;
                 char* q = strstr(line, "src/");
                 if (q && !have_where) { size_t n = strcspn(q, ": \n"); snprintf(where, sizeof(where), "%.*s", (int)n, q); have_where = 1; }
             } else if (!have_kind && strstr(line, "ERROR: LeakSanitizer")) {
